@@ -518,8 +518,11 @@ func (e *Engine) VirtualizationUpdateResource(ctx context.Context, ID string, en
 	quota := resourceOpts.Quota
 	cpuMap := resourceOpts.CPU
 	numaNode := resourceOpts.NUMANode
-	// unlimited cpu
-	if quota == 0 || len(cpuMap) == 0 {
+	// cores given without the remap flag are a binding
+	shared := resourceOpts.Remap
+	// no cores given: the workload is not bound, it may use every core,
+	// but it is still held to its quota (like a remapped workload)
+	if len(cpuMap) == 0 {
 		info, err := e.Info(ctx) // TODO can fixed in docker engine, support empty Cpusetcpus, or use cache to speed up
 		if err != nil {
 			return err
@@ -528,13 +531,15 @@ func (e *Engine) VirtualizationUpdateResource(ctx context.Context, ID string, en
 		for i := 0; i < info.NCPU; i++ {
 			cpuMap[strconv.Itoa(i)] = int64(e.config.Scheduler.ShareBase)
 		}
-		if quota == 0 {
-			quota = -1
-			numaNode = ""
-		}
+		numaNode = ""
+		shared = true
+	}
+	// unlimited cpu
+	if quota == 0 {
+		quota = -1
 	}
 
-	newResource := makeResourceSetting(quota, memory, cpuMap, numaNode, resourceOpts.IOPSOptions, resourceOpts.Remap)
+	newResource := makeResourceSetting(quota, memory, cpuMap, numaNode, resourceOpts.IOPSOptions, shared)
 	updateConfig := dockercontainer.UpdateConfig{Resources: newResource}
 	_, err := e.client.ContainerUpdate(ctx, ID, updateConfig)
 	return err
